@@ -32,7 +32,7 @@ ASSUMPTIONS = ["'\\r' excluded from text (XML end-of-line normalisation by the p
                "property names are identifiers; values None/bool/float are outside the quantifier",
                "empty graphs are outside the domain (serialize_graph documents returning None)",
                "on the per-graph store a re-import under an existing id is a documented skip (C04's subject)"]
-BUDGET = {"quick": 1100, "thorough": 40000}
+BUDGET = {"quick": 1100, "thorough": 12000}
 MIN_LABEL_FRACTION = {"nontrivial": 0.4, "has-int": 0.25, "has-hard-text": 0.4, "disjoint": 0.15, "mixed-typing": 0.03,
                       "topo": 0.08, "raw": 0.6}
 
@@ -350,7 +350,9 @@ def run_case(case):
                     not any(x[0] == "merge" and x[2] == gids[i] for x in cross):
                 d["nodes"][j]["id"] = gids[i]
                 cross.append(("merge", c["pre"] % len(pre), gids[i]))
-        elif d["nodes"][j]["id"] not in gids and len(d["nodes"]) >= 2:
+        elif d["nodes"][j]["id"] not in gids and len(d["nodes"]) >= 2 and \
+                not any(x[0] == "rehome" and x[2] == d["nodes"][j]["id"] for x in cross):
+            # (one node per id: two neighbours' nodes with one NodeID would make the model itself ill-formed)
             cross.append(("rehome", c["pre"] % len(pre), d["nodes"][j]["id"]))
     for k, d in enumerate(pre):
         store.load_raw(store.graph_handle(imp, f"pre{k}"), d)
